@@ -547,6 +547,18 @@ func (env *specEnv) call(e *ast.CallExpr) Val {
 			}
 		}
 		return env.fail(name + ": unknown type")
+	case "haskey":
+		if !need(2) {
+			return Val{T: "false"}
+		}
+		m := arg(0)
+		if m.Ty != nil {
+			if mt, ok := m.Ty.Underlying().(*types.Map); ok {
+				_, hh := sc.mapHeaps(mt)
+				return Val{T: "(and (not (= " + m.T + " 0)) (select (select " + env.heapRead(hh, m) + " " + m.T + ") " + arg(1).T + "))", Sort: "Bool"}
+			}
+		}
+		return env.fail("haskey on non-map")
 	case "typetag":
 		// typetag("pkg.Type"): the dynamic-type tag of a named Go type
 		if lit, ok := e.Args[0].(*ast.BasicLit); ok {
